@@ -12,6 +12,10 @@
 (*  mutate / inner_distance   steps of a history (crv/props/c20.py _exec_hist): accepted;  *)
 (*              the distance / interpolate events that follow carry the lanelet's CURRENT  *)
 (*              public vertices, so the expected values are those of the current polylines  *)
+(* All geometry is logged in the ABSTRACT frame of the case (pre-image under the case's      *)
+(* similarity p + qi, lengths in units of sqrt(U), see LaneletGeom (2c)); a float is logged   *)
+(* as grid index + precision class (2: within 1e-9, 1: within 1e-5, 0: off); dt = array      *)
+(* representation handed to the library.  Route events carry U (lengths len[i] * sqrt(U)).   *)
 (* st = "ok" | "timeout" | "exc:<Type>".                                                 *)
 EXTENDS LaneletGeom, IOUtils
 Traces == ndJsonDeserialize(IOEnv.TRACE_FILE)
@@ -19,20 +23,22 @@ Traces == ndJsonDeserialize(IOEnv.TRACE_FILE)
 VARIABLES tid, l, err
 tvars == <<tid, l, err>>
 
+(* every event carries dt (array representation) -> the precision class its floats must reach *)
+Prec(e) == IF "dt" \in DOMAIN e THEN PrecOf(e.dt) ELSE 2
 GOf(s) == [n \in 1..Len(s) |-> {s[n][k] : k \in 1..Len(s[n])}]
 (* got = <<kx, ky, exact>>, exp = exact rational point, D = grid denominator chosen by the driver *)
-PtClause(got, exp, D) ==
+PtClause(got, exp, D, need) ==
   IF ~(OnGrid(exp[1], D) /\ OnGrid(exp[2], D)) THEN "grid"
-  ELSE IF got[3] = 1 /\ GridEq(got[1], exp[1], D) /\ GridEq(got[2], exp[2], D) THEN "" ELSE "bad"
+  ELSE IF got[3] >= need /\ GridEq(got[1], exp[1], D) /\ GridEq(got[2], exp[2], D) THEN "" ELSE "bad"
 
 DistanceClause(e) ==
   IF ~WellFormed(e.c) \/ e.den < 1 THEN "driver/malformed-polyline"
   ELSE IF e.st # "ok" \/ Len(e.res) = 0 THEN "C20.Total/distance"
-  ELSE IF e.res[1] # <<0, 1>> THEN "C20.CumStart"
+  ELSE IF e.res[1][1] # 0 \/ e.res[1][2] < Prec(e) THEN "C20.CumStart"
   ELSE IF \E i \in 1..Len(e.res) - 1 : e.res[i][1] > e.res[i + 1][1] THEN "C20.CumMonotone"
-  ELSE IF Len(e.res) # Len(e.c) \/ Last(e.res) # <<Length(e.c) * e.den, 1>> THEN "C20.CumEnd"
+  ELSE IF Len(e.res) # Len(e.c) \/ Last(e.res)[1] # Length(e.c) * e.den \/ Last(e.res)[2] < Prec(e) THEN "C20.CumEnd"
   \* "the cumulative center-line distance": entry i is the arc length of the center line up to vertex i
-  ELSE IF \E i \in 1..Len(e.c) : e.res[i] # <<Cum(e.c)[i] * e.den, 1>> THEN "C20.CumValues"
+  ELSE IF \E i \in 1..Len(e.c) : e.res[i][1] # Cum(e.c)[i] * e.den \/ e.res[i][2] < Prec(e) THEN "C20.CumValues"
   ELSE ""
 
 InterpolateClause(e) ==
@@ -40,9 +46,9 @@ InterpolateClause(e) ==
      THEN "driver/malformed-polyline"
   ELSE IF ~InRange(e.c, e.sn, e.sd) THEN "driver/arc-length-out-of-range"
   ELSE IF e.st # "ok" THEN "C20.Total/interpolate"
-  ELSE LET pc == PtClause(e.res[1], PointAt(e.c, e.sn, e.sd), e.den)
-           pr == PtClause(e.res[2], BoundaryAt(e.c, e.r, e.sn, e.sd), e.den)
-           pl == PtClause(e.res[3], BoundaryAt(e.c, e.l, e.sn, e.sd), e.den)
+  ELSE LET pc == PtClause(e.res[1], PointAt(e.c, e.sn, e.sd), e.den, Prec(e))
+           pr == PtClause(e.res[2], BoundaryAt(e.c, e.r, e.sn, e.sd), e.den, Prec(e))
+           pl == PtClause(e.res[3], BoundaryAt(e.c, e.l, e.sn, e.sd), e.den, Prec(e))
        IN IF "grid" \in {pc, pr, pl} THEN "driver/grid"
           ELSE IF pc # "" THEN "C20.Interpolate/center"
           ELSE IF pr # "" \/ pl # "" THEN "C20.Interpolate/boundary"
@@ -53,19 +59,20 @@ MergeClause(e) ==
   ELSE IF ~Joint(e.a, e.b) THEN "driver/not-joint"
   ELSE IF e.st # "ok" THEN "C20.Total/merge"
   ELSE LET m == Merge(e.a, e.b)
-       IN IF e.res.ex # 1 \/ e.res.l # m.l \/ e.res.c # m.c \/ e.res.r # m.r THEN "C20.Merge/vertices"
-          ELSE IF e.rlen # <<Length(e.a.c) + Length(e.b.c), 1>> THEN "C20.Merge/length"
+       IN IF e.res.ex < Prec(e) \/ e.res.l # m.l \/ e.res.c # m.c \/ e.res.r # m.r THEN "C20.Merge/vertices"
+          ELSE IF e.rlen[1] # Length(e.a.c) + Length(e.b.c) \/ e.rlen[2] < Prec(e) THEN "C20.Merge/length"
           ELSE ""
 
 RoutesOk(e) == /\ Len(e.len) = Len(e.succ) /\ e.start \in 1..Len(e.succ)
                /\ \A n \in 1..Len(e.succ) : \A k \in 1..Len(e.succ[n]) : e.succ[n][k] \in 1..Len(e.succ) \ {n}
                /\ \A n \in 1..Len(e.len) : e.len[n] >= 1
+               /\ e.U >= 1 /\ e.range >= 0
 RoutesClause2(e) ==
   IF ~RoutesOk(e) THEN "driver/malformed-graph"
   ELSE IF e.st = "timeout" THEN "C20.Terminates"
   ELSE IF e.st # "ok" THEN "C20.Total/" \o e.op
   ELSE LET g == IF e.op = "succ_routes" THEN GOf(e.succ) ELSE Rev(GOf(e.succ))
-           c == RoutesClause(g, e.len, e.start, e.range, e.res)
+           c == RoutesClause(g, e.len, e.start, e.range, e.res, e.U)
        IN IF c = "" THEN "" ELSE "C20.Routes/" \o c
 
 Clause(e) ==
